@@ -1,6 +1,6 @@
 (* Property C12 — swap quotes equal execution. Statements only; proofs in Proofs/SwapProofs.v, Proofs/ReverseProofs.v. *)
 From MD.Model Require Import Base Ownable Epoch PoolMath Types PoolManager FarmManager Chain.
-From MD.Proofs Require Import PoolMathProofs BankProofs SwapProofs ChainProofs TxBalances.
+From MD.Proofs Require Import PoolMathProofs BankProofs SwapProofs ChainProofs TxBalances ReverseQuote.
 
 (* In any state: if a Swap executes, the Simulation query in that state returns exactly the computation the
    swap used: same return amount and the same four fee amounts ... *)
@@ -59,7 +59,23 @@ Theorem C12_route_quote_is_what_the_route_transaction_pays : forall w sender fun
         + leaves_eff PM (w_tf_fee w) fee_msgs a d.
 Proof. exact route_tx_balances. Qed.
 
+(* REVERSE QUOTES on constant-product pools: for requested amounts up to 10^18 units, whatever the reserves X (offer side),
+   Y (ask side) and the fee setting, offering ONE UNIT MORE than ReverseSimulation quotes yields at least the requested amount
+   net of all fees (gross = floor(Y o / (X + o)), fees floored one by one - exactly what compute_swap does). Above 10^18 the
+   18-digit truncation of 1/(1 - fees) makes the quote fall short by more than a unit: finding F-rev18 (e.g. 10^24 requested
+   on 10^30 / 10^30 reserves returns 444344 units too little). *)
+Theorem C12_reverse_quote_plus_one_suffices_up_to_1e18 : forall X Y a f oc ra fc slip sc,
+  0 <= X -> 0 <= Y -> 0 <= a <= DEC ->
+  compute_offer_amount X Y a f = Ok oc ->
+  let o := oc_offer oc + 1 in
+  dec_from_ratio U256_MAX (Y * o) (X + o) = Ok ra ->
+  compute_fees f (dec_floor ra) = Ok fc ->
+  get_swap_computation (dec_floor ra) slip fc = Ok sc ->
+  a <= sc_return sc.
+Proof. exact reverse_quote_plus_one_suffices. Qed.
+
 Print Assumptions C12_simulation_eq_swap.
 Print Assumptions C12_simulate_operations_eq_execute.
 Print Assumptions C12_quote_is_what_the_swap_transaction_pays.
 Print Assumptions C12_route_quote_is_what_the_route_transaction_pays.
+Print Assumptions C12_reverse_quote_plus_one_suffices_up_to_1e18.
